@@ -362,6 +362,14 @@ def k_random(run, case):
         inc = rng.uniform(1e-9, 8e-9, size=n)
         R = np.array([rm.rodrigues(axis, float(th)) for th in np.cumsum(inc)])
         case = dict(case, band=1e-13)
+    if case.get("halfturn"):
+        # a platform that flips over between frames: every step is almost (not exactly) a half turn,
+        # pi - x with x between 1e-7 and 3e-3, about its own axis
+        steps = [rm.rodrigues(gen.rand_axis(rng), PI - 10.0**rng.uniform(-7, -2.5)) for _ in range(n)]
+        R = [steps[0]]
+        for k in range(1, n):
+            R.append(R[-1] @ steps[k])
+        R = np.array(R)
     seg = np.linalg.norm(np.diff(p, axis=0), axis=1)
     if unit == "f":
         delta = int(rng.integers(1, n + 2))
@@ -379,6 +387,11 @@ def k_random(run, case):
         delta, rel_tol = rng.uniform(0.2, 2.5) * (180 / PI if unit == "d" else 1.0), [0.02, 0.1][rng.integers(2)]
     if case.get("nano"):
         delta = float(rng.uniform(3, 20) * 4.5e-9) * (180 / PI if unit == "d" else 1.0)
+    if case.get("halfturn"):
+        # thresholds just below one / two / three half turns: whether a step reaches them depends on
+        # the last 1e-3 rad of its angle
+        delta = float((PI * int(rng.integers(1, 4)) - 10.0**rng.uniform(-4, -2.3)) * (180 / PI if unit == "d" else 1.0))
+        rel_tol = 0.0
     via = "metrics" if rng.random() < .6 else "filters"
     pairs = run_selection(run, case, p, R, unit, delta, rel_tol, all_pairs, False, via)
     run.seen(case, core.digest(p, R, unit, delta, rel_tol, all_pairs), nontrivial=bool(pairs),
@@ -634,6 +647,8 @@ def main(run):
         k_reuse(run, run.case("reuse", i))
     for i in run.mine({"quick": 60, "thorough": 1200}[run.tier]):
         k_random(run, run.case("random", 3 * 10**6 + i, nano=True, unit="rd"[i % 2], all_pairs=False))
+    for i in run.mine({"quick": 80, "thorough": 1600}[run.tier]):
+        k_random(run, run.case("random", 4 * 10**6 + i, halfturn=True, unit="rd"[i % 2], all_pairs=False))
     for i in run.mine({"quick": 300, "thorough": 6000}[run.tier]):
         k_metric_reuse(run, run.case("metric_reuse", i))
     for i in run.mine({"quick": 60, "thorough": 1500}[run.tier]):
